@@ -2,14 +2,43 @@
 operator[] exactly at size == capacity, colliding hashes, drain-and-refill, remove by chain role."""
 import random
 
+M64 = (1 << 64) - 1
+
+def signed_key(rng, keyspace):
+    """a key for the signed-key instantiation (hash kind 5), as its 64-bit two's complement pattern; mostly NEGATIVE values
+    that fit 32 (16, 8) bits -- where a hash that depends on the C++ type of get()'s argument shows"""
+    r = rng.random()
+    if r < 0.45:
+        v = -rng.randrange(1, min(max(keyspace, 2), 1 << 31) + 1)
+    elif r < 0.6:
+        v = -rng.randrange(1, 1 << rng.choice([7, 15, 31]))
+    elif r < 0.8:
+        v = rng.randrange(min(keyspace, 1 << 31))
+    elif r < 0.9:
+        v = rng.choice([-1, 1]) * rng.randrange(1 << 31, 1 << 62)
+    else:
+        v = rng.choice([-1, -128, -129, -32768, -32769, -(1 << 31), -(1 << 31) - 1, (1 << 31) - 1, 1 << 31, -(1 << 63), (1 << 63) - 1, 0])
+    return v & M64
+
 def gen_case(rng, n_ops, kind=None, keyspace=None):
-    kind = rng.choice([0, 0, 1, 2, 3, 4]) if kind is None else kind
+    kind = rng.choice([0, 0, 1, 2, 3, 4, 5, 5]) if kind is None else kind
     keyspace = keyspace or rng.choice([8, 24, 50, 200, 1 << 20, 1 << 40])
-    lines = ["hash %d" % kind]
+    # the hasher object the map is constructed from: a temporary ("tmp"), or the harness's own lvalue whose state the script
+    # changes later ("reseed k": the map must keep using the copy it made); kind 5 uses the stateless frg::hash<int64_t>
+    temporary = kind != 5 and rng.random() < 0.15
+    reseed_p = 0.0 if (kind == 5 or temporary) else rng.choice([0.0, 0.02, 0.05])
+    lines = ["hash %d%s" % (kind, " tmp" if temporary else "")]
     present = []
+    def draw():
+        if kind == 5:
+            return signed_key(rng, keyspace)
+        return rng.randrange(keyspace)
     def newkey():
         for _ in range(50):
-            k = rng.randrange(keyspace) if rng.random() < 0.9 else rng.choice([0, 2**32 - 1, 2**32, 2**64 - 1, 2**63])
+            if kind == 5:
+                k = draw()
+            else:
+                k = rng.randrange(keyspace) if rng.random() < 0.9 else rng.choice([0, 2**32 - 1, 2**32, 2**64 - 1, 2**63])
             if k not in present:
                 return k
         return None
@@ -40,13 +69,13 @@ def gen_case(rng, n_ops, kind=None, keyspace=None):
                 present.append(k)
             lines.append("x %d %d" % (k, rng.randrange(1, 1000)))
         elif o == "g":
-            k = rng.choice(present) if present and rng.random() < 0.6 else rng.randrange(keyspace)
+            k = rng.choice(present) if present and rng.random() < 0.6 else draw()
             lines.append("g %d" % k)
         elif o == "r":
             if present and rng.random() < 0.8:
                 k = rng.choice(present); present.remove(k)
             else:
-                k = rng.randrange(keyspace)
+                k = draw()
                 if k in present:
                     present.remove(k)
             lines.append("r %d" % k)
@@ -54,6 +83,11 @@ def gen_case(rng, n_ops, kind=None, keyspace=None):
             lines.append(o)
         if rng.random() < 0.02:
             phase = rng.choice(["mixed", "grow", "grow_idx", "churn"])
+        if reseed_p and present and rng.random() < reseed_p:
+            lines.append("reseed %d" % rng.choice([k for k in range(5) if k != kind]))
+    if present and kind != 5:
+        # every present key is looked up once more at the end (after all reseeds)
+        lines += ["g %d" % k for k in rng.sample(present, min(len(present), 6))]
     lines += ["sz", "it"]
     return lines
 
@@ -66,6 +100,18 @@ def corpus():
     cs.append(("corpus-const-hash", ["hash 1"] + ["i %d %d" % (i, i) for i in range(12)] + ["r 0", "r 11", "r 5", "it", "sz"]))
     cs.append(("corpus-drain-refill", ["hash 3"] + ["i %d 1" % i for i in range(11)] + ["r %d" % i for i in range(11)] + ["it", "x 4 4", "it", "sz"]))
     cs.append(("corpus-empty", ["hash 0", "g 1", "r 1", "it", "sz"]))
+    # seeded change r4-2 (_hasher became a reference to the caller's object): the caller re-seeds its hasher after filling the map
+    cs.append(("corpus-reseed-caller-hasher", ["hash 0"] + ["i %d %d" % (k, k + 1) for k in range(15)] + ["reseed 1"] +
+               ["g %d" % k for k in range(15)] + ["r 3", "x 4 44", "x 99 9", "reseed 3", "i 200 1", "g 200", "g 99", "it", "sz"]))
+    # ... or passes a temporary hasher (dangling afterwards)
+    cs.append(("corpus-temporary-hasher", ["hash 3 tmp"] + ["i %d %d" % (k * 7919, k + 1) for k in range(12)] +
+               ["g %d" % (k * 7919) for k in range(12)] + ["r 7919", "x 5 5", "it", "sz"]))
+    # seeded change r4-3 (frg::hash<int64_t> gained an int overload that is wrong for negative values): signed keys that fit
+    # 32/16/8 bits, looked up through the templated get() with int / short / signed char / long / int64_t arguments
+    sk = [(-7), (-1), (-128), (-129), (-40000), (-(1 << 31)), (-(1 << 31) - 1), 5, (1 << 40), (-(1 << 40)), (-300)]
+    cs.append(("corpus-signed-negative-get", ["hash 5"] + ["i %d %d" % (k & M64, i + 1) for i, k in enumerate(sk)] +
+               ["g %d" % (k & M64) for k in sk] + ["g %d" % ((-8) & M64), "r %d" % ((-7) & M64), "g %d" % ((-7) & M64),
+                "x %d 9" % ((-9) & M64), "g %d" % ((-9) & M64), "it", "sz"]))
     return cs
 
 def exhaustive_small(maxlen):
